@@ -219,6 +219,9 @@ def lifecycle_models(run, tier, overrides=None):
     if run.prop in ("C02", "C03"):
         # + the environment replaces a function's code between lifetimes (Regenerate)
         cfgs.insert(2, "MC_Lifecycle_rgq" if tier == "quick" else "MC_Lifecycle_rg")
+    if run.prop in ("C03", "C12"):
+        # + the rest of the process takes over an address the library has given back (ForeignTake)
+        cfgs.insert(2, "MC_Lifecycle_fr")
     for c in cfgs:
         cfg = c
         if overrides:
@@ -1901,6 +1904,7 @@ DEVIATIONS = [
     ("MC_Lifecycle", "MC_Lifecycle_q1", {"FlushEntry": "FALSE"}, ("FlushedAtUser",)),
     ("MC_Lifecycle", "MC_Lifecycle_q1", {"UnmapOnDrop": "FALSE"}, ("NoLeak",)),
     ("MC_Lifecycle", "MC_Lifecycle_rg", {"SavedFrom": '"first"'}, ("OnlyNamed", "Restored")),
+    ("MC_Lifecycle", "MC_Lifecycle_fr", {"AllocAt": '"fixed"'}, ("ForeignIntact",)),
     ("MC_Lock", "MC_Lock_q", {"UnlockFirst": "TRUE"}, ("Mutex", "FreeMeansOrig", "PrevSeesOrig", "HolderIsLock")),
     ("MC_Lock", "MC_Lock_q", {"SwallowPoison": "FALSE"}, ("Reusable", "HandOver", "NoStuck", "temporal")),
     ("MC_Times", "MC_Times_q", {"AtomicCount": '"loadStore"'}, ("Accounting", "Budget", "ExitVerdict")),
